@@ -500,6 +500,17 @@ func paramFields(fn *ssa.Function, v ssa.Value) []string {
 							rec(st.Val, d+1)
 						}
 					}
+				case ssa.CallInstruction:
+					// the local is updated in place by a method of its own type (`var q T; q.accumulate(a, b)`): it then
+					// depends on what was accumulated, as the value-returning spelling `q = q.plus(a, b)` does
+					cc := y.Common()
+					if cal := cc.StaticCallee(); cal != nil && cal.Signature.Recv() != nil && len(cc.Args) > 1 && cc.Args[0] == ssa.Value(a) {
+						if _, isPtr := cal.Signature.Recv().Type().(*types.Pointer); isPtr {
+							for _, arg := range cc.Args[1:] {
+								rec(arg, d+1)
+							}
+						}
+					}
 				}
 			}
 			return
@@ -635,7 +646,24 @@ func rejectGuards(fn *ssa.Function) []guard {
 				// (each of them alone refuses) - the same keys as the equivalent chain of ifs
 				rejOnTrue := r0
 				if (kind == "&") == rejOnTrue {
-					dec, fields = combinedKey(fn, kind, atoms)
+					if kind == "&" {
+						// (mode flags of the object select when the check applies: not part of the key, see below)
+						var data []ssa.Value
+						for _, a := range atoms {
+							if pd, pf := deciderOf(a), guardFields(fn, a); pd == "load" && len(pf) > 0 && allHavePrefix(pf, "recv.") {
+								continue
+							}
+							data = append(data, a)
+						}
+						if len(data) > 0 && len(data) < len(atoms) {
+							atoms = data
+						}
+					}
+					if len(atoms) == 1 {
+						dec, fields = deciderOf(atoms[0]), guardFields(fn, atoms[0])
+					} else {
+						dec, fields = combinedKey(fn, kind, atoms)
+					}
 				} else {
 					for _, a := range atoms {
 						out = append(out, guard{fn: fn, iff: x, decider: deciderOf(a), fields: guardFields(fn, a), cond: a, pos: pos, passBlk: pass})
@@ -660,6 +688,12 @@ func rejectGuards(fn *ssa.Function) []guard {
 					// conjunction as `v != 2 && v != 3`
 				} else {
 					break
+				}
+				// a conjunct that is a mode flag of the object itself (`r.refresh && !constant.IsIdentity()`) selects WHEN
+				// the check applies, as the enclosing `if r.refresh { ... }` of the nested spelling does: not part of the key
+				if pd, pf := deciderOf(pif.Cond), guardFields(fn, pif.Cond); pd == "load" && len(pf) > 0 && allHavePrefix(pf, "recv.") {
+					cb = p
+					continue
 				}
 				decs = append(decs, deciderOf(pif.Cond))
 				fields = append(fields, guardFields(fn, pif.Cond)...)
@@ -968,8 +1002,9 @@ func liftedGuards(fn *ssa.Function, depth int) []guard {
 			if prm, ok := call.Call.Args[0].(*ssa.Parameter); ok && (fn.Signature.Recv() == nil || prm != fn.Params[0]) {
 				onParam = true
 			}
-			// ... or of a wire struct the function decoded into (pm.toPublic(), m.validate())
-			if ls := paramFields(fn, call.Call.Args[0]); len(ls) == 1 && strings.HasPrefix(ls[0], "local:") {
+			// ... or of a wire struct the function decoded into (pm.toPublic(), m.validate()), or of the message content
+			// it was handed (body.validate() with body := msg.Content.(*broadcast7))
+			if ls := paramFields(fn, call.Call.Args[0]); len(ls) == 1 && (strings.HasPrefix(ls[0], "local:") || ls[0] == "body") {
 				onParam = true
 			}
 			// ... or, inside a closure, of an object the closure captured (p.verifyRound(i) in Verify's worker closure)
@@ -1052,11 +1087,39 @@ func liftedGuards(fn *ssa.Function, depth int) []guard {
 			}
 		}
 		if !tail || ret == nil {
+			// a helper that refuses by PANIC (`hasher := newNonceHasher(nonce)` with `if err != nil { panic(err) }` inside)
+			// refuses for its caller too, however the result is used: its panicking guards are the caller's
+			if fn.Parent() == nil && g.Signature.Recv() == nil {
+				for _, lg := range liftFrom(fn, call, g, false, true, nil, nil, nil, depth) {
+					if lg.inner != nil && ifPanics(lg.inner) {
+						lg.ret = nil
+						out = append(out, lg)
+					}
+				}
+			}
 			return
 		}
 		out = append(out, liftFrom(fn, call, g, onParam, true, nil, ret, nil, depth)...)
 	})
 	return out
+}
+
+// ifPanics: one edge of the branch runs (through unconditional jumps) into a panic.
+func ifPanics(iff *ssa.If) bool {
+	for _, s := range iff.Block().Succs {
+		b := s
+		for i := 0; i < 4 && b != nil && len(b.Instrs) > 0; i++ {
+			switch b.Instrs[len(b.Instrs)-1].(type) {
+			case *ssa.Panic:
+				return true
+			case *ssa.Jump:
+				b = b.Succs[0]
+				continue
+			}
+			break
+		}
+	}
+	return false
 }
 
 // liftFrom translates the guards of helper g, called at `call` inside fn, into fn's vocabulary.
@@ -1791,4 +1854,13 @@ func intBoundary(x *ssa.BinOp) (string, ssa.Value, bool) {
 func isTranscriptHash(t types.Type) bool {
 	n := namedOf(t)
 	return n != nil && n.Obj().Name() == "Hash" && n.Obj().Pkg() != nil && strings.HasSuffix(n.Obj().Pkg().Path(), "/pkg/hash")
+}
+
+func allHavePrefix(xs []string, pre string) bool {
+	for _, x := range xs {
+		if !strings.HasPrefix(x, pre) {
+			return false
+		}
+	}
+	return true
 }
